@@ -25,7 +25,7 @@ TRUSTED_EXTRA = ["tools/translators/mem.py (sizes as compiled, FLEN_* of the ins
                  "harness/C19_harness.cpp (CountingAlloc recorder, independent shape reader), extract/mem_driver.ml"]
 EXTRA_COQ_TARGETS = ["MemModel"]
 
-RULE = ("files written by the library's write_fits from in-memory tables of 1..6 dims, mixed orders 0..5, 0..50 auxiliary keys "
+RULE = ("files written by the library's write_fits from in-memory tables of 1..6 dims, mixed orders 0..5, 0..50 auxiliary keys (random short / HIERARCH names, and names the FITS standard uses elsewhere: CTYPEn, TDIMn, CHECKSUM, DATE-OBS, ... — whole headers of them too) "
         "(short and HIERARCH keys, empty/short/long/numeric/quoted values) plus the shipped test tables, each with no convolution and with "
         "convolutions of 2..8 kernel knots in random dims of order >= 1 (thorough: also one order-0 dimension and one 1-knot kernel); non-trivial = the case has a convolution, or at least one auxiliary key, or >= 2 dims; "
         "distinct by (shape, n, dim)")
@@ -34,8 +34,20 @@ SHIPPED = sorted(glob.glob(os.path.join(REPO, "test", "test_data", "*.fits")))
 
 # ------------------------------------------------------------------------------------------------ generation
 ALNUM = "ABCDEFGHIJKLMNOPQRSTUVWXYZ0123456789"
-def gen_key(rng, i):
-    style = rng.choice(["short", "short", "short8", "hier", "hier", "hierlong"] * 4 + ["respfx"])
+# names the FITS standard / cfitsio give a meaning to in other contexts (world coordinates, table columns, checksums, observation
+# metadata) but that are ordinary auxiliary keys of a spline file: stored, loaded through the allocator, and to be counted.
+# (Keywords that change how cfitsio READS an image — BSCALE, BZERO, BLANK — and the HDU-version cards are left out.)
+STD_KEYWORDS = (["%s%d" % (b, n) for b in ("CTYPE", "CUNIT", "CRVAL", "CRPIX", "CDELT", "CROTA", "TDIM", "TFORM", "TTYPE", "TUNIT", "TNULL", "TSCAL", "TZERO", "TDISP")
+                 for n in (1, 2, 3, 4, 5, 6)] +
+                ["CD1_1", "CD1_2", "CD2_1", "CD2_2", "PC1_1", "PC2_2", "BUNIT", "DATAMIN", "DATAMAX", "DATE-OBS", "TELESCOP", "INSTRUME", "OBSERVER",
+                 "OBJECT", "AUTHOR", "REFERENC", "EQUINOX", "EPOCH", "RADESYS", "LONPOLE", "LATPOLE", "CHECKSUM", "DATASUM", "ORIGIN", "DATE", "TFIELDS",
+                 "THEAP", "WCSAXES", "MJD-OBS", "TIMESYS", "CREATOR", "FILENAME"])
+def gen_key(rng, i, std=False):
+    if std:
+        return STD_KEYWORDS[(i * 7 + rng.below(3)) % len(STD_KEYWORDS)]
+    style = rng.choice(["short", "short", "short8", "hier", "hier", "hierlong"] * 4 + ["respfx", "stdkw", "stdkw"])
+    if style == "stdkw":
+        return rng.choice(STD_KEYWORDS)
     if style == "short":
         return "".join(rng.choice(ALNUM[:26]) for _ in range(rng.rint(1, 5))) + "%d" % i
     if style == "short8":
@@ -104,8 +116,16 @@ def gen_file(rng, boundary=False):
     else:
         naux = rng.choice([0, 0, 1, 2, 3, 5, 8, 13, 21, 34, 50, 50, rng.rint(0, 50)])
     aux = []
+    allstd = rng.chance(0.35 if boundary else 0.1)      # a header made of standard-keyword names only
+    used = set()
     for i in range(naux):
-        k = gen_key(rng, i)
+        k = gen_key(rng, i, std=allstd)
+        if allstd and k in used:
+            cand = [x for x in STD_KEYWORDS if x not in used]
+            if not cand:
+                break
+            k = rng.choice(cand)
+        used.add(k)
         v = gen_value(rng) if not boundary else rng.choice(["m" * 68, "h" * 100, gen_value(rng)])
         aux.append([k, v])
     f = {"periods": int(rng.chance(0.3)), "orders": orders, "nknots": nk, "aux": aux}
